@@ -10,6 +10,8 @@ CRATES = {
     "shared": ("proxy_agent_shared", ["--lib"], ["proxy_agent_shared", "Cargo.toml", "Cargo.lock"], "proxy_agent_shared/src/lib.rs"),
     "ext": ("ProxyAgentExt", ["--bin", "ProxyAgentExt"], ["proxy_agent_extension", "proxy_agent_shared", "Cargo.toml", "Cargo.lock"],
             "proxy_agent_extension/src/main.rs"),
+    "setup": ("proxy_agent_setup", ["--bin", "proxy_agent_setup"], ["proxy_agent_setup", "proxy_agent_shared", "Cargo.toml", "Cargo.lock"],
+              "proxy_agent_setup/src/main.rs"),
 }
 
 
